@@ -28,6 +28,23 @@ def variants(rng, fs):
             if d[0] == "const" or all(t in gen.PRIMS or t == "interface" for t, c, n in d[2]):
                 rng.choice(incs)["decls"].append(d)
                 out.append(("moved", C))
+    if len(fs["files"]) >= 3:
+        # the same include set in another order, with shared headers repeated explicitly: a file
+        # includes, in shuffled order, everything its includes reach (acceptance must not depend
+        # on the order of include directives nor on a header being reached twice)
+        D = copy.deepcopy(fs)
+        by = {f["path"]: f for f in D["files"]}
+        def reach(p, acc):
+            for q in by[p]["includes"]:
+                if q not in acc:
+                    acc.append(q); reach(q, acc)
+            return acc
+        for f in D["files"]:
+            allr = reach(f["path"], [])
+            extra = [q for q in allr if q not in f["includes"] and rng.random() < 0.6]
+            f["includes"] = f["includes"] + extra
+            rng.shuffle(f["includes"])
+        out.append(("include-order", D))
     return out
 
 
@@ -49,7 +66,7 @@ def run(ctx):
     else:
         rng = vlib.mkrng(seed, prop)
         for k in range(n):
-            fs, _ = gen.gen_fileset(rng)
+            fs, _ = gen.gen_fileset(rng, nfiles=(rng.choice([3, 4, 5]) if k % 4 == 0 else None))
             cases += variants(rng, fs)
     res = {"coverage": {}, "failures": [], "corr_broken": []}
     if not ctx["harness"] or not ctx["checks_vo"]:
